@@ -2389,7 +2389,18 @@ def _nd_set(base, idx, value):
     i, rest = idx[0], idx[1:]
     if rest:
         if isinstance(i, slice):
-            for x in base[i]:
+            rows = base[i]
+            if isinstance(value, (list, tuple)) and value and all(isinstance(v_, (list, tuple)) for v_ in value):
+                # a 2-D right-hand side: one row of it per selected row (numpy: x[:, mask] = rows)
+                if len(value) != len(rows):
+                    if len(value) == 1:
+                        value = list(value) * len(rows)
+                    else:
+                        raise Undecided("row-wise assignment of a different number of rows")
+                for x, v_ in zip(rows, value):
+                    _nd_set(x, rest, v_)
+                return
+            for x in rows:
                 _nd_set(x, rest, value)
         else:
             _nd_set(base[i], rest, value)
